@@ -562,6 +562,7 @@ def build_dynamic(steps, timeout=1800, always=(), newer_than=0.0):
     d = dyn_dir()
     with lock("dyn-" + os.path.basename(d)):
         dirty = False
+        chain = 0.0
         stat = max(newest_static_vo(), newer_than)
         for rel, text in steps:
             p = os.path.join(d, rel)
@@ -571,8 +572,9 @@ def build_dynamic(steps, timeout=1800, always=(), newer_than=0.0):
             if write_if_changed(p, text):
                 dirty = True
             vo = p[:-2] + ".vo"
+            # stale also when an earlier step's .vo is newer (another check may have recompiled it)
             need = dirty or rel in always or not os.path.exists(vo) \
-                or os.path.getmtime(vo) < os.path.getmtime(p) or os.path.getmtime(vo) < stat
+                or os.path.getmtime(vo) < os.path.getmtime(p) or os.path.getmtime(vo) < max(stat, chain)
             if need:
                 if os.path.exists(vo):
                     os.remove(vo)
@@ -584,6 +586,8 @@ def build_dynamic(steps, timeout=1800, always=(), newer_than=0.0):
                     break
             else:
                 res.append({"path": rel, "rc": 0, "out": "", "recompiled": False, "wall_s": 0.0})
+            if os.path.exists(vo):
+                chain = max(chain, os.path.getmtime(vo))
     return res
 
 
